@@ -146,4 +146,9 @@ def hessian(poly: PolyLike) -> ndpoly:
                      [0, 0, 2*q0]]])
 
     """
-    return gradient(gradient(poly))
+    poly = numpoly.aspolynomial(poly)
+    # differentiate with respect to the names of `poly` both times, also when
+    # the gradient no longer mentions all of them
+    grad, _ = numpoly.align_indeterminants(gradient(poly), poly)
+    polys = [derivative(grad, diffvar)[numpy.newaxis] for diffvar in poly.names]
+    return numpoly.concatenate(polys, axis=0)
